@@ -146,16 +146,31 @@ func Listen(ctx context.Context, endpoint string, ack *Acknowledge) (*Listener, 
 // The first param ctx is to be passed to monitor(), which monitors and handles
 // incoming messages automatically in another goroutine.
 func (l *Listener) Accept(ctx context.Context) (*Conn, error) {
+	conn, err := l.AcceptTCP()
+	if err != nil {
+		return nil, err
+	}
+	if err := conn.ServerHandshake(l.endpoint); err != nil {
+		conn.TCPConn.Close()
+		return nil, err
+	}
+	return conn, nil
+}
+
+// AcceptTCP accepts the next incoming call without performing the OPC UA
+// Connection Protocol handshake. The caller must call ServerHandshake on the
+// returned connection before using it.
+//
+// Accept waits for the Hello message of the new client before it returns.
+// Servers which must keep accepting connections while a client is slow to
+// send its Hello message use AcceptTCP and run ServerHandshake in the
+// goroutine that serves the connection.
+func (l *Listener) AcceptTCP() (*Conn, error) {
 	c, err := l.l.AcceptTCP()
 	if err != nil {
 		return nil, err
 	}
-	conn := &Conn{TCPConn: c, id: nextid(), ack: l.ack}
-	if err := conn.srvhandshake(l.endpoint); err != nil {
-		c.Close()
-		return nil, err
-	}
-	return conn, nil
+	return &Conn{TCPConn: c, id: nextid(), ack: l.ack}, nil
 }
 
 // Close closes the Listener.
@@ -283,6 +298,13 @@ func (c *Conn) Handshake(ctx context.Context, endpoint string) error {
 		c.SendError(ua.StatusBadTCPInternalError)
 		return errors.Errorf("invalid handshake packet %q", msgtyp)
 	}
+}
+
+// ServerHandshake performs the server side of the handshake on a connection
+// returned by Listener.AcceptTCP: it waits for the Hello (or ReverseHello)
+// message of the client and answers it.
+func (c *Conn) ServerHandshake(endpoint string) error {
+	return c.srvhandshake(endpoint)
 }
 
 func (c *Conn) srvhandshake(endpoint string) error {
